@@ -4,6 +4,7 @@ from __future__ import annotations
 import calendar
 import datetime as dt
 import json
+import os
 
 from .. import core, realcode
 
@@ -216,6 +217,29 @@ def end_to_end(chk, tier):
             chk.violation({'why': 'formula result differs from the helper applied to the same operands (translator glue)',
                            'formula': f, 'impl': g, 'helper': w})
     chk.sample({'formula': formulas[0], 'value': got[0]})
+    # DATE written with literals only, in particular years below 1900 (Excel adds 1900) and out-of-range months / days
+    lits = [(99, 12, 31), (0, 1, 1), (1899, 1, 1), (1900, 1, 1), (5, 14, 40), (2024, 0, 15), (2024, 2, 30), (2023, 13, 1), (24, 2, 29), (1899, 12, 31), (1900, 3, 0), (2024, 12, 31)]
+    lf = ['=DATE(%d,%d,%d)' % t for t in lits] + ['=YEAR(DATE(%d,%d,%d))' % t for t in lits]
+    lw = [core.outcome(lambda t=t: inst._date(*t)) for t in lits] + [core.outcome(lambda t=t: inst._date(*t).year) for t in lits]
+    for f, g, w in zip(lf, realcode.eval_formulas(lf, {}), lw):
+        chk.count('e2e:date-literals')
+        chk.seen(('e2e', f))
+        if g != w:
+            chk.violation({'why': 'DATE written with literals differs from DATE applied to the same numbers held by cells (helper)', 'formula': f, 'impl': g, 'helper': w})
+    # TODAY in processes whose local date differs from the UTC date: it is the LOCAL date
+    import subprocess
+    src = ("import sys, datetime as dt, warnings; warnings.filterwarnings('ignore'); sys.path.insert(0, %r); sys.path.insert(0, %r)\n"
+           "from harness import realcode, core\n"
+           "b = dt.date.today(); g = realcode.eval_formulas(['=TODAY()', '=DAY(TODAY())'], {}); a = dt.date.today()\n"
+           "ok = g[0] in (core.enc(dt.datetime.combine(b, dt.time())), core.enc(dt.datetime.combine(a, dt.time()))) and g[1] in ('I%%d' %% b.day, 'I%%d' %% a.day)\n"
+           "print('OK' if ok else 'BAD %%s local=%%s' %% (g, b))\n") % (core.REPO, core.VERIF)
+    for tz in ('Etc/GMT+12', 'Etc/GMT-14', 'UTC'):
+        r = subprocess.run(['/venv/bin/python', '-c', src], env=dict(os.environ, TZ=tz, E2P_REPO=core.REPO), capture_output=True, text=True, timeout=300)
+        line = (r.stdout.strip().splitlines() or ['NO-OUTPUT ' + r.stderr[-200:]])[-1]
+        chk.count('today:tz')
+        chk.seen(('today', tz))
+        if not line.startswith('OK'):
+            chk.violation({'why': 'TODAY() is not the local date of the process', 'TZ': tz, 'impl': line[:300], 'stream': 'today-timezone'})
     # TODAY end-to-end
     before = dt.date.today()
     g = realcode.eval_formulas(['=TODAY()'], {})[0]
